@@ -136,12 +136,29 @@ class SpectralDensity(DFunction, UnitsManaged):
             self.lim_omega = numpy.zeros(2)
             
             if values is not None:
-                # the object keeps its own list of its own dictionaries
-                self.params = [dict(p) for p in params]
-                self.data = values
+                # the object keeps its own list of its own dictionaries, with
+                # the energies converted to internal units as for the
+                # analytically defined components
+                try:
+                    params.keys()
+                    plist = [params]
+                except:
+                    plist = params
+                self.params = []
                 self.lamb = 0.0
-                for p in self.params:
-                    self.lamb += p["reorg"]
+                for p in plist:
+                    cprm = {}
+                    for key in p.keys():
+                        if key in self.energy_params:
+                            cprm[key] = \
+                            self.convert_energy_2_internal_u(p[key])
+                        else:
+                            cprm[key] = p[key]
+                    self.params.append(cprm)
+                    self.lamb += cprm["reorg"]
+                    if "T" in p.keys():
+                        self.temperature = p["T"]
+                self.data = values
                 return
     
     
